@@ -390,8 +390,11 @@ func c18SchedScenario(readers int, writes int) *mc.Scenario {
 		// the leader's /status endpoint as an in-process round tripper: it runs in the calling thread and
 		// reads the leader's committed revision through the instrumented code, so that the scheduler
 		// (and the state fingerprint) sees the data flow from the leader to the follower
+		fetched := map[string]uint64{} // thread -> what its own round trip returned
 		revision.VerifSetRoundTripper(peers.RevisionSyncer, roundTripFunc(func(req *http.Request) (*http.Response, error) {
-			b, _ := json.Marshal(&revision.LeaderRevision{Revision: lead.GetCurrentRevision()})
+			v := lead.GetCurrentRevision()
+			fetched[vrt.CurName()] = v
+			b, _ := json.Marshal(&revision.LeaderRevision{Revision: v})
 			return &http.Response{StatusCode: 200, Status: "200 OK", Proto: "HTTP/1.1", ProtoMajor: 1, ProtoMinor: 1, Header: http.Header{}, Body: ioutil.NopCloser(bytes.NewReader(b)), Request: req}, nil
 		}))
 		bs := brain.New(foll, hx.NopMetrics{}, peers)
@@ -400,6 +403,7 @@ func c18SchedScenario(readers int, writes int) *mc.Scenario {
 			hdr           uint64
 			keys          map[string]uint64
 			err           error
+			thread        string
 		}
 		var reads []*rd
 		var written []struct {
@@ -423,7 +427,7 @@ func c18SchedScenario(readers int, writes int) *mc.Scenario {
 		for i := 0; i < readers; i++ {
 			ths = append(ths, vrt.Go(func() {
 				vrt.Mark()
-				r := &rd{keys: map[string]uint64{}}
+				r := &rd{keys: map[string]uint64{}, thread: vrt.CurName()}
 				r.leaderAtStart = lead.GetCurrentRevision()
 				reads = append(reads, r)
 				resp, err := bs.Range(context.Background(), &proto.RangeRequest{Key: []byte("/r/"), End: []byte("/r0")})
@@ -456,10 +460,17 @@ func c18SchedScenario(readers int, writes int) *mc.Scenario {
 					}
 				}
 			}
-			if len(missing) > 0 {
-				x.Fail("C18|follower-read-misses-committed-write", "a follower range read began when the leader had committed revision %d, was served at revision %d and misses %v", int64(r.leaderAtStart)-base, int64(r.hdr)-base, missing)
-			} else if r.hdr < r.leaderAtStart {
-				x.Fail("C18|follower-read-below-leader-revision", "a follower range read began when the leader had committed revision %d but was served at revision %d", int64(r.leaderAtStart)-base, int64(r.hdr)-base)
+			if len(missing) > 0 || r.hdr < r.leaderAtStart {
+				// the same two mechanisms as in the syncer-level scenarios, seen through a whole node
+				own, did := fetched[r.thread]
+				cls := "other"
+				switch {
+				case !did:
+					cls = "joined-a-fetch-that-began-before-the-read"
+				case own >= r.leaderAtStart:
+					cls = "newer-revision-overwritten-by-a-late-older-one"
+				}
+				x.Fail("C18|follower-read-below-leader-revision|"+cls, "a follower range read began when the leader had committed revision %d, was served at revision %d and misses %v (own fetch: %v returned %d)", int64(r.leaderAtStart)-base, int64(r.hdr)-base, missing, did, int64(own)-base)
 			}
 			outs = append(outs, fmt.Sprintf("start=%d served=%d", int64(r.leaderAtStart)-base, int64(r.hdr)-base))
 		}
@@ -559,12 +570,15 @@ func init() {
 			c.Pool.Wait()
 			cells := c.Agg.Execs
 			mc.DriveSchedules(c, func(i int, sc *mc.Scenario) mc.SchedPlan {
-				p := mc.SchedPlan{Class: "syncer-schedules", Bounds: []int{0, 1, 2, 3}, Shard: true}
-				if strings.Contains(sc.Name, "readers=3") && c.Tier == "quick" {
-					p.Bounds = []int{0, 1, 2}
+				p := mc.SchedPlan{Class: "syncer-schedules", Bounds: []int{0, 1, 2, 3, 4, 5}, Shard: true}
+				if strings.Contains(sc.Name, "readers=3") {
+					p.Bounds = []int{0, 1, 2, 3}
+					if c.Tier == "thorough" {
+						p.Bounds = []int{0, 1, 2, 3, 4}
+					}
 				}
 				if strings.Contains(sc.Name, "readers=2") && c.Tier == "thorough" {
-					p.Bounds = []int{0, 1, 2, 3, 4, 5}
+					p.Bounds = []int{0, 1, 2, 3, 4, 5, 6, 7, 64}
 				}
 				if strings.Contains(sc.Name, "/sched/") {
 					p = mc.SchedPlan{Class: "full-node-schedules", Bounds: []int{0, 1}, Shard: true}
